@@ -235,6 +235,11 @@ const HOSTILE_SCHEMAS: &[&str] = &[
     r#"{"type":"record","name":"R","fields":[{"name":"a","type":{"type":"fixed","name":"F","size":LIMIT1}}]}"#,
     r#"{"type":"array","items":{"type":"fixed","name":"F","size":LIMIT1}}"#,
     r#"{"type":"fixed","name":"D","size":LIMIT1,"logicalType":"decimal","precision":4}"#,
+    r#"{"type":"fixed","name":"D","size":1099511627776,"logicalType":"decimal","precision":4}"#,
+    r#"{"type":"record","name":"R","fields":[{"name":"a","type":["null",{"type":"fixed","name":"D","size":LIMIT1,"logicalType":"decimal","precision":4}]}]}"#,
+    r#"{"type":"fixed","name":"U","size":LIMIT1,"logicalType":"uuid"}"#,
+    r#"{"type":"fixed","name":"P","size":LIMIT1,"logicalType":"duration"}"#,
+    r#"{"type":"map","values":{"type":"fixed","name":"F","size":LIMIT1}}"#,
     r#"{"type":"array","items":"null"}"#,
     r#"{"type":"map","values":"null"}"#,
     r#"{"type":"array","items":{"type":"record","name":"E","fields":[]}}"#,
@@ -247,7 +252,7 @@ const HOSTILE_SCHEMAS: &[&str] = &[
 pub fn case_hostile_container(c: &mut Choices, log: &mut CaseLog) -> CaseResult {
     // schema: generated or from the hostile list
     let (schema_text, node_env): (String, Option<(SNode, Env)>) = if c.chance(1, 2) {
-        let t = HOSTILE_SCHEMAS[c.pick(HOSTILE_SCHEMAS.len())].replace("LIMIT1", &(limit() + 1).to_string());
+        let t = HOSTILE_SCHEMAS[c.pick(HOSTILE_SCHEMAS.len())].replace("LIMIT1", &(2 * limit() + (1 << 20)).to_string()); // well beyond the bound incl. slack
         (t, None)
     } else {
         match gen_subject(c, &schema_cfg(), log)? {
